@@ -202,7 +202,14 @@ func c09RunTrace(m *vk.M, idx int, tr c09Trace, obs *c09ShObs) {
 		if c.OmitWindow {
 			c.BucketMs, c.Buckets = c09Defaults().BucketMs, c09Defaults().Buckets
 		} else {
-			opts = append(opts, WithWindow(time.Duration(c.BucketMs*c09Ms)*time.Duration(c.Buckets)), WithBuckets(c.Buckets))
+			// round 13: a window that is not a multiple of the bucket count. The remainder is smaller than the
+			// number of buckets, so window/buckets is the same bucket duration as without it (integer division);
+			// a constructor that rounds the bucket duration up gets fewer buckets per second and a lower capacity.
+			rem := time.Duration(0)
+			if idx%2 == 1 {
+				rem = time.Duration(int64(idx/2) % int64(c.Buckets))
+			}
+			opts = append(opts, WithWindow(time.Duration(c.BucketMs*c09Ms)*time.Duration(c.Buckets)+rem), WithBuckets(c.Buckets))
 		}
 		if c.OmitThreshold {
 			c.Threshold = c09Defaults().Threshold
